@@ -1,5 +1,6 @@
 """C05 — link collections stay symmetric; ref-counted links agree on both sides."""
 from . import c05_c16_flow as flow
+from . import universe
 
 MODULE = "StorageModel.Properties.C05"
 THEOREMS = ["links_symmetric", "links_point_to_existing", "link_buckets_sorted", "setlinks_exact",
@@ -170,7 +171,11 @@ RULE = ("each case is a history of Db.Update transactions over two real stores w
         "the schemas: every multiset of <= 2 (quick, 90) / <= 3 (thorough, 454) of the 12 collection kinds x DeleteById "
         "through each of the 4 stores, after every collection got links / counts (incl. a self link), then re-creation; "
         "random histories (Create / Create-with-SetLinkedIds / Update / DeleteById through root or child stores, all "
-        "collection operations on any declared collection) per small schema (1 quick / 12 thorough each) plus random "
+        "collection operations on any declared collection) per small schema (1 quick / 12 thorough each); SIZE "
+        "boundaries of link sets: one entity linked with n peers in a plain / ref-counted / self collection (links made from "
+        "its side, or one by one from the peers' side), SetLinks from n links to a 3/5 subset plus new peers, delete of a peer "
+        "and of the hub, re-creation - quick: n = 1001 (3 cases), thorough: 255/256/257/1000/1001 (7 cases each), 2048/2049 "
+        "(4 each), 4097 (2); plus random "
         "schemas; NAMING of the set symbols is part of the schema: each collection end is declared with AddFkSetSymbol(name), "
         "AddFkSymbolWithKey(name, otherKey), under a path prefix (refs/name) or both (refs/deep/otherKey) - every "
         "single-collection schema in all 16 (self: 4) namings through the delete stream, a random naming for half of the "
@@ -237,7 +242,52 @@ def g_candidates(case):
     return out
 
 
+def g_large_candidates(case):
+    """G-cases with very long lines (size-boundary cases: an entity with a thousand links): coarse
+    candidates only, so that one shrinking round costs a handful of runs - drop a transaction, drop
+    one operation of a short transaction, and for the two longest lists of the case (operations of a
+    transaction, keys of an operation) keep a prefix of 1/2, 3/4, ..., 255/256 of its length or all
+    but one.  Greedy descent over these reaches the smallest failing link count in a few rounds
+    (e.g. 2050 -> 1025 -> 1008 -> 1004 -> 1003 -> 1002 -> 1001 behind a batch size of 1000)."""
+    f = case.split(" ")
+    head, txs = f[:4], f[4:]
+    out = []
+    for i in range(len(txs)):
+        if len(txs) > 1:
+            out.append(" ".join(head + txs[:i] + txs[i + 1:]))
+
+    def cuts(n):
+        return sorted({n - (n >> k) for k in range(1, 9)} | {n - 1}) if n > 1 else []
+    longs = []  # (length, tx index, op index or None, field index)
+    for i, tx in enumerate(txs):
+        ops = tx.split(";")
+        if len(ops) > 8:
+            longs.append((len(ops), i, None, None))
+        elif len(ops) > 1:
+            for j in range(len(ops)):
+                out.append(" ".join(head + txs[:i] + [";".join(ops[:j] + ops[j + 1:])] + txs[i + 1:]))
+        for j, op in enumerate(ops if len(ops) <= 8 else []):
+            flds = op.split(":")
+            for li in G_LIST_FIELDS.get(flds[0], []):
+                if li < len(flds) and flds[li].count(",") >= 8:
+                    longs.append((flds[li].count(",") + 1, i, j, li))
+    for n, i, j, li in sorted(longs, reverse=True)[:2]:
+        ops = txs[i].split(";")
+        for k in cuts(n):
+            if k < 1 or k >= n:
+                continue
+            if j is None:
+                out.append(" ".join(head + txs[:i] + [";".join(ops[:k])] + txs[i + 1:]))
+            else:
+                flds = ops[j].split(":")
+                nf = flds[:li] + [",".join(flds[li].split(",")[:k])] + flds[li + 1:]
+                out.append(" ".join(head + txs[:i] + [";".join(ops[:j] + [":".join(nf)] + ops[j + 1:])] + txs[i + 1:]))
+    return out
+
+
 def candidates(case):
+    if case.startswith("G ") and len(case) > 3000:
+        return g_large_candidates(case)
     if case.startswith("G "):
         return g_candidates(case)
     if case.startswith("S "):
@@ -259,4 +309,5 @@ def run(ctx, replay_cases=None):
     ]
     return flow.flow(ctx, "c05", MODULE, THEOREMS, MATCHERS, normalise=normalise, nontrivial=nontrivial,
                      describe=describe, rule=RULE, histogram=histogram, candidates=candidates,
-                     replay_cases=replay_cases, workers=4)
+                     replay_cases=replay_cases, workers=4,
+                     post_cases=lambda c: universe.universe_stream(c, ["C05"]))
